@@ -164,7 +164,7 @@ func c20Fields(rt *routes.Route, rq *s3c.Req) []c20Field {
 		c20Field{"header", "If-Modified-Since", []string{"", "yesterday", "Mon, 02 Jan 2006 15:04:05 GMT"}},
 		c20Field{"header", "X-Amz-Copy-Source-If-Match", []string{"", "*"}},
 		c20Field{"header", "X-Amz-Copy-Source-If-Modified-Since", []string{"", "yesterday"}},
-		c20Field{"header", "Content-Length", []string{"-1", "abc", "99999999999999999999", "", "0x10", "1,2"}},
+		c20Field{"header", "Content-Length", []string{"-1", "abc", "99999999999999999999", "", "0x10", "1,2", "<absent>", "<absent>"}},
 		c20Field{"header", "Content-Type", []string{"", "a", strings.Repeat("x/", 3000)}},
 		c20Field{"header", "Transfer-Encoding", []string{"chunked", "gzip", "chunked, chunked"}},
 		c20Field{"header", "Expect", []string{"100-continue", "200-ok"}},
@@ -418,7 +418,13 @@ func (c20) Exec(c *core.Case) (out *core.Outcome) {
 		case "header":
 			switch strings.ToLower(cs.Field) {
 			case "content-length", "transfer-encoding", "x-amz-date", "x-amz-content-sha256", "x-amz-decoded-content-length", "x-amz-trailer":
-				sg.SetHeader(cs.Field, val)
+				if strings.EqualFold(cs.Field, "content-length") && val == "<absent>" {
+					// no Content-Length, no Transfer-Encoding, no body
+					sg.NoCL = true
+					sg.DelHeader("Transfer-Encoding")
+				} else {
+					sg.SetHeader(cs.Field, val)
+				}
 			}
 		case "auth":
 			sg.SetHeader("Authorization", val)
